@@ -14,9 +14,59 @@ ENUMS = "tealer.utils.teal_enums"
 
 # ---------------------------------------------------------------------------------------------- discovery
 
+HELPERS = ("detect_missing_tx_field_validations_group", "detect_missing_tx_field_validations_group_complete", "detect_missing_tx_field_validations")
+
+
+def _captured_closures(ctx, d, output_group):
+    """run the detector's detect() with the path-search helpers replaced by probes (in whichever module they are called from);
+    returns [(helper, positional args, keyword args, arguments bound to the helper's parameter names)]"""
+    w = ctx.world
+    du = w.module(DU)
+    got = []
+    probes = {}
+    real = {}
+    for h in HELPERS:
+        if h not in du.defs:
+            continue
+        du.values.pop(h, None) if isinstance(du.values.get(h), tuple) else None
+        real[h] = du.lookup(h)
+
+        def probe(*args, _h=h, **kw):
+            params = [a.arg for a in real[_h].node.args.posonlyargs + real[_h].node.args.args]
+            bound = dict(zip(params, args))
+            bound.update(kw)
+            got.append((_h, list(args), dict(kw), bound))
+            return []
+        probes[h] = ("host", probe)
+    saved = []
+    for m in [m for m in w.cache.values() if m is not None]:
+        for h, pv in probes.items():
+            if h in m.values:
+                saved.append((m, h, m.values[h]))
+                m.values[h] = pv
+    for h, pv in probes.items():
+        du.values[h] = pv
+    try:
+        TL = w.cls("tealer.tealer", "Tealer")
+        tl = Obj(TL, _output_group=output_group)
+        tl.fields["output_group"] = output_group
+        det = Obj(d["cls"], tealer=tl)
+        w.call(w.method(det, "detect"))
+    finally:
+        for m in [m for m in w.cache.values() if m is not None]:
+            for h, pv in probes.items():
+                if m.values.get(h) is pv:
+                    del m.values[h]
+        for m, h, v in saved:
+            m.values[h] = v
+        for h, v in real.items():
+            du.values[h] = v
+    return got
+
+
 def path_detectors(ctx):
-    """AbstractDetector subclasses whose detect() hands a local predicate to detect_missing_tx_field_validations*:
-    {NAME: (class, predicate FunctionDef, report-condition FunctionDef or None, group call node or None)}"""
+    """AbstractDetector subclasses whose detect() reaches one of the path-search helpers, found by running detect() abstractly with the
+    helpers replaced by probes: {NAME: {cls, mod, detect, calls (by output_group), pred_fv, report_fv, types_value, pred, report}}"""
     def build():
         w = ctx.world
         base = w.cls("tealer.detectors.abstract_detector", "AbstractDetector")
@@ -32,27 +82,33 @@ def path_detectors(ctx):
                 if not (isinstance(cls, ClassV) and cls.is_sub(base) and cls is not base):
                     continue
                 c, det = cls.find("detect")
-                if det is None or c is not cls:
+                if det is None or "abstractmethod" in {getattr(x, "attr", getattr(x, "id", None)) for x in det.decorator_list}:
                     continue
-                local = {n.name: n for n in det.body if isinstance(n, ast.FunctionDef)}
-                pred = rc = None
-                types_arg = None
-                for call in G.calls_in(det):
-                    fname = call.func.id if isinstance(call.func, ast.Name) else None
-                    if fname in ("detect_missing_tx_field_validations_group", "detect_missing_tx_field_validations_group_complete",
-                                 "detect_missing_tx_field_validations"):
-                        args = [a.id for a in call.args if isinstance(a, ast.Name)]
-                        for a in args:
-                            if a in local and pred is None:
-                                pred = local[a]
-                            elif a in local and local[a] is not pred:
-                                rc = local[a]
-                        if fname.endswith("_complete") and len(call.args) >= 4:
-                            types_arg = call.args[3]
-                if pred is None:
+                d = {"cls": cls, "mod": c.mod, "detect": det, "calls": {}}
+                for og in (False, True):
+                    try:
+                        d["calls"][og] = _captured_closures(ctx, d, og)
+                    except (PyRaise, Unsupported):
+                        d["calls"][og] = []
+                first = d["calls"][False] or d["calls"][True]
+                if not first:
                     continue
-                name = w.getattr(cls, "NAME")
-                out[name] = {"cls": cls, "pred": pred, "report": rc, "types": types_arg, "detect": det, "mod": mod}
+                bound = first[0][3]
+                pred = bound.get("checks_field")
+                if not isinstance(pred, FuncV):
+                    continue
+                d["pred_fv"], d["pred"] = pred, pred.node
+                rc = bound.get("satisfies_report_condition")
+                d["report_fv"], d["report"] = (rc, rc.node) if isinstance(rc, FuncV) else (None, None)
+                d["types_value"] = None
+                for call in d["calls"][True]:
+                    if call[3].get("vulnerable_transaction_types") is not None:
+                        d["types_value"] = call[3]["vulnerable_transaction_types"]
+                try:
+                    name = w.getattr(cls, "NAME")
+                except PyRaise:
+                    continue
+                out[name] = d
         return out
     return ctx.cached("path_detectors", build)
 
@@ -112,7 +168,7 @@ def rule_checks_field(ctx, rep):
     tables = _pred_tables(ctx)
     for name in sorted(want_names):
         d = dets[name]
-        f = FuncV(d["mod"], d["pred"], closure=None)
+        f = d["pred_fv"]
         where = f"{ctx.path(d['mod'].name)}:{d['pred'].lineno}"
         for attrs, want in tables[name]:
             c = _mk_ctx(ctx, **attrs)
@@ -700,12 +756,12 @@ def rule_group_verdicts(ctx, rep):
     # transaction-type filter as the two detectors that use it pass it
     for dname, label in (("can-close-account", "Pay"), ("can-close-asset", "Axfer")):
         d = dets[dname]
-        rep.check(d["types"] is not None, rule, f"{dname} passes a transaction-type filter", f"{ctx.path(d['mod'].name)}:{d['detect'].lineno}", None, "a list")
-        if d["types"] is None:
+        rep.check(d["types_value"] is not None, rule, f"{dname} passes a transaction-type filter", f"{ctx.path(d['mod'].name)}:{d['detect'].lineno}", None, "a list")
+        if d["types_value"] is None:
             continue
-        types = Interp(d["mod"]).ev(d["types"], {})
+        types = list(d["types_value"])
         names = sorted(t.name for t in types)
-        rep.check(names == sorted(["Any", "Unknown", label]), rule, f"{dname} type filter", f"{ctx.path(d['mod'].name)}:{d['types'].lineno}", names, sorted(["Any", "Unknown", label]))
+        rep.check(names == sorted(["Any", "Unknown", label]), rule, f"{dname} type filter", f"{ctx.path(d['mod'].name)}:{d['detect'].lineno}", names, sorted(["Any", "Unknown", label]))
         for ttype in ("Any", "Unknown", "Pay", "Axfer", "Appl", "KeyReg"):
             got = run(Obj(d["cls"]), {"kind": "logic_sig", "marks": {}, "abs": None, "type": ttype}, blank | {"marks": {"self": True}}, "none", types)
             want = {"T0"} if ttype in ("Any", "Unknown", label) else set()
@@ -950,43 +1006,27 @@ def rule_absolute_index_access(ctx, rep):
             got = f"RAISES {e.exc} {e.where}"
         rep.check(got is want, rule, name, where, got, want, why="the report condition of group-size-check does not recognise (or over-recognises) absolute-index reads",
                   sample={"block": lines, "absolute index read": want})
-    # the report condition is an 'any block of the path' test
+    # the report condition is an 'any block of the path' test: decided on the closure detect() hands to the path search
     rc = d["report"]
     rep.require(rc is not None, "group-size-check passes no report condition")
-    has_any = any(isinstance(n, ast.For) for n in ast.walk(rc)) and any(isinstance(n, ast.Return) and isinstance(n.value, ast.Constant) and n.value.value is True for n in ast.walk(rc))
-    rep.check(has_any, rule, "report condition quantifies over the blocks of the path", f"{ctx.path(d['mod'].name)}:{rc.lineno}", ast.unparse(rc)[:120], "for block in path: if uses absolute index: return True")
-
-
-HELPERS = ("detect_missing_tx_field_validations_group", "detect_missing_tx_field_validations_group_complete", "detect_missing_tx_field_validations")
-
-
-def _captured_closures(ctx, d, output_group):
-    """run the detector's detect() with the path-search helpers replaced by probes; returns the (helper, args) the detector hands over"""
-    w = ctx.world
-    mod = d["mod"]
-    got = []
-    saved = {}
-    for h in HELPERS:
-        if h in mod.imports or h in mod.defs:
+    g = Graph(ctx)
+    plain1, plain2 = g.block("P1", ["txn Amount", "pop"]), g.block("P2", ["int 1", "return"])
+    absb = g.block("A", ["gtxn 0 Amount", "pop"])
+    for og in (False, True):
+        calls = _captured_closures(ctx, d, og)
+        funcs = [a for a in calls[0][1] if isinstance(a, FuncV)] if calls else []
+        rep.check(len(funcs) >= 2, rule, f"report condition handed to the path search (output_group={og})", f"{ctx.path(d['mod'].name)}:{rc.lineno}", len(funcs), "predicate and report condition")
+        if len(funcs) < 2:
+            continue
+        cond = funcs[1]
+        for pname, path, want in (("no block reads by absolute index", [plain1, plain2], False), ("first block", [absb, plain1], True), ("last block", [plain1, plain2, absb], True),
+                                  ("middle block", [plain1, absb, plain2], True), ("single plain block", [plain1], False), ("single reading block", [absb], True), ("empty path", [], False)):
             try:
-                saved[h] = mod.lookup(h)
-            except (KeyError, Unsupported):
-                continue
-
-            def probe(*args, _h=h, **kw):
-                got.append((_h, list(args), dict(kw)))
-                return []
-            mod.values[h] = ("host", probe)
-    try:
-        TL = w.cls("tealer.tealer", "Tealer")
-        tl = Obj(TL, _output_group=output_group)
-        tl.fields["output_group"] = output_group
-        det = Obj(d["cls"], tealer=tl)
-        w.call(w.method(det, "detect"))
-    finally:
-        for h, v in saved.items():
-            mod.values[h] = v
-    return got
+                got = w.call(cond, list(path))
+            except PyRaise as e:
+                got = f"RAISES {e.exc} {e.where}"
+            rep.check(got is want, rule, f"report condition (output_group={og}): {pname}", f"{ctx.path(d['mod'].name)}:{rc.lineno}", got, want,
+                      why="a path is reported exactly when some block of it reads another transaction by absolute index")
 
 
 def rule_history(ctx, rep):
@@ -1011,7 +1051,7 @@ def rule_history(ctx, rep):
             rep.check(len(calls) == 1, rule, f"{name}: detect() with output_group={og} calls the path search once", where, [c[0] for c in calls], "one call")
             if len(calls) != 1:
                 continue
-            helper, args, kw = calls[0]
+            helper, args, kw, _bound = calls[0]
             funcs = [a for a in args if isinstance(a, FuncV)] + [v for v in kw.values() if isinstance(v, FuncV)]
             rep.check(len(funcs) >= 1, rule, f"{name}: hands a predicate to {helper}", where, len(funcs), ">= 1")
             if not funcs:
@@ -1026,7 +1066,7 @@ def rule_history(ctx, rep):
                 orders = {"A,B": [ca, cb], "B,A": [cb, ca], "A,A,B,B": [ca, ca, cb, cb], "B,B,A": [cb, cb, ca]}
                 for oname, seq in orders.items():
                     # a fresh activation per order: what one order remembers cannot hide in the next
-                    helper2, args2, kw2 = _captured_closures(ctx, d, og)[0]
+                    helper2, args2, kw2, _b2 = _captured_closures(ctx, d, og)[0]
                     p2 = [a for a in args2 if isinstance(a, FuncV)][0]
                     try:
                         got = [(("A" if c is ca else "B"), w.call(p2, c)) for c in seq]
@@ -1045,7 +1085,7 @@ def rule_history(ctx, rep):
                 b1 = g2.block("B1", ["int 1", "return"])
                 pa, pb = [a0, a1], [b0, b1]
                 for oname, seq in {"A,B": [pa, pb], "B,A": [pb, pa], "A,A,B": [pa, pa, pb], "B,B,A,B": [pb, pb, pa, pb]}.items():
-                    helper2, args2, kw2 = _captured_closures(ctx, d, og)[0]
+                    helper2, args2, kw2, _b2 = _captured_closures(ctx, d, og)[0]
                     rc2 = [a for a in args2 if isinstance(a, FuncV)][1]
                     try:
                         got = [(("A" if q is pa else "B"), w.call(rc2, q)) for q in seq]
